@@ -38,4 +38,23 @@ theorem resetLoop_unfold (initBytes : Buf) (w i : Nat) (hash : UInt64) :
   rw [resetLoop]
   rfl
 
+/-- a scan loop of `_rolling_hash2_run_until_base` over an arbitrary step program -/
+def untilLoopP (prog : List A) (hit : UInt64 → Bool) (max : Nat) (t1 t2 : UInt8 → UInt64) (b1 b2 : Ptr)
+    (i : Nat) (h : UInt64) : Nat × UInt64 :=
+  if i < max then
+    if hit (stepVal prog h (t1 (b1.rd (i : Int))) (t2 (b2.rd (i : Int)))) then
+      (i, stepVal prog h (t1 (b1.rd (i : Int))) (t2 (b2.rd (i : Int))))
+    else untilLoopP prog hit max t1 t2 b1 b2 (i + 1) (stepVal prog h (t1 (b1.rd (i : Int))) (t2 (b2.rd (i : Int))))
+  else (i, h)
+termination_by max - i
+
+/-- **the whole scan loop**: the model's `untilLoop` is the loop over the translated step, for every start index, bound,
+    tables, buffers and exit test -/
+theorem untilLoop_eq (hit : UInt64 → Bool) (max : Nat) (t1 t2 : UInt8 → UInt64) (b1 b2 : Ptr) (i : Nat) (h : UInt64) :
+    untilLoop hit max t1 t2 b1 b2 i h = untilLoopP canonStep hit max t1 t2 b1 b2 i h := by
+  fun_induction untilLoopP canonStep hit max t1 t2 b1 b2 i h with
+  | case1 i h hlt hh => rw [untilLoop_unfold, if_pos hlt, if_pos hh]
+  | case2 i h hlt hh ih => rw [untilLoop_unfold, if_pos hlt, if_neg hh, ih]
+  | case3 i h hge => rw [untilLoop_unfold, if_neg hge]
+
 end IsalVerif.RollC
